@@ -17,6 +17,7 @@
    K < 8 and proves the theorems for [accuracy_F (RndOps rnd)] itself, for every K. *)
 From Coq Require Import Reals List Arith.
 From OPF Require Import Spec.MetricSpec Model.Measures.
+From OPF Require Import Base.NumOpsRnd Model.KnnLearn.
 Import ListNotations.
 Local Open Scope R_scope.
 
@@ -40,6 +41,10 @@ Section Rnd.
 
   Definition acc_rows_rnd (labels preds : list nat) : list R :=
     map (acc_row_rnd labels preds) (seq 0 (n_class labels)).
+
+  (* the computed error rate rnd (np.sum(errors) / (2K)), numpy's summation order *)
+  Definition acc_q (labels preds : list nat) : R :=
+    rnd (np_sum (RndOps rnd) (acc_rows_rnd labels preds) / INR (2 * n_class labels)).
 
   Definition accuracy_rnd (labels preds : list nat) : R :=
     rnd (1 - rnd (fold_left (fun acc e => rnd (acc + e)) (acc_rows_rnd labels preds) 0
